@@ -65,7 +65,7 @@ def validate(number):
     number = compact(number)
     if len(number) != 9:
         raise InvalidLength()
-    if not isdigits(number) or int(number) <= 0:
+    if not isdigits(number) or not number.strip('0'):
         raise InvalidFormat()
     if number[0] != '5':
         raise InvalidComponent()
